@@ -55,12 +55,13 @@ Definition type_id (v : value) : tyid :=
   | VOpaque k _ => TOpaque k
   end.
 
-Definition tyid_code (t : tyid) : Z :=
-  match t with
-  | TEmpty => 0 | TBool => 1 | TInt t => 2 + ity_code t | TFloat => 10 | TDouble => 11 | TString => 12
-  | TStatus => 13 | TOpaque k => 20 + k
+Definition tyid_eqb (a b : tyid) : bool :=
+  match a, b with
+  | TEmpty, TEmpty | TBool, TBool | TFloat, TFloat | TDouble, TDouble | TString, TString | TStatus, TStatus => true
+  | TInt s, TInt t => ity_eqb s t
+  | TOpaque k, TOpaque l => k =? l
+  | _, _ => false
   end.
-Definition tyid_eqb (a b : tyid) : bool := tyid_code a =? tyid_code b.
 
 (* VariantTypeId::precedence (Part 4 table 119); smaller number = higher precedence *)
 Definition precedence (t : tyid) : Z :=
